@@ -76,3 +76,34 @@ Lemma trees_exist :
   forallb fully_inlines (filter (fun f => existsb (Nat.eqb (fn_id f)) [6; 7; 12; 18; 22]) skeleton) = true
   /\ length (filter (fun f => existsb (Nat.eqb (fn_id f)) [6; 7; 12; 18; 22]) skeleton) = 5.
 Proof. vm_compute. split; reflexivity. Qed.
+
+(* LOOPS.  The paths above contain every loop run zero times, and the iterations that leave it by a
+   return.  Every complete iteration of every extracted loop re-establishes the discipline state of the
+   loop head ... *)
+Lemma loops_ok_today :
+  forallb (fun l => loop_ok true (fst (fst l)) (snd (fst l)) (snd l)) skeleton_loops = true.
+Proof. vm_compute. reflexivity. Qed.
+
+(* ... so any number of iterations, in any order of the ways through the body, can be inserted at the
+   head of a path of the function that passes it: still safe, still balanced *)
+Lemma today_loops_safe : forall ps pre conts, In (ps, pre, conts) skeleton_loops ->
+  forall f p rest r, In f skeleton -> In p (fn_paths f) -> fn_params f = ps ->
+  split_ret p = Some (pre ++ rest, r) ->
+  forall bs, Forall (fun b => In b conts) bs ->
+  forall orc s k, init_ok ps s = true ->
+  match exec true orc (expand (pre ++ concat bs ++ rest) ++ [EReturn r]) s k with
+  | Done s' => balanced ps s' = true
+  | Infeasible => True
+  | Running _ _ => False
+  | Fault _ => False
+  end.
+Proof.
+  intros ps pre conts Hl f p rest r Hf Hp Eps Hs bs Fb.
+  pose proof loops_ok_today as HL. rewrite forallb_forall in HL. specialize (HL _ Hl). cbn in HL.
+  pose proof skeleton_Dc as HD. rewrite forallb_forall in HD. specialize (HD f Hf). unfold Dc_fn in HD.
+  rewrite forallb_forall in HD. specialize (HD p Hp). rewrite Hs, Eps in HD.
+  apply loops_safe with (conts := conts); auto.
+Qed.
+
+Lemma loops_exist : 2 <=? length skeleton_loops = true.
+Proof. vm_compute. reflexivity. Qed.
